@@ -21,7 +21,12 @@ def run(R):
     rb = R.tlc("sys/MCRandomSource.tla", "MCRandomSourceBroken.cfg", workers=2, timeout=300)
     if not rb.violated:
         raise vlib.MachineryError("vacuity: the off-by-one rejection threshold is not rejected by Uniform")
-    R.add("states", r.distinct); R.add("transitions", r.generated)
+    rl = R.tlc("sys/RandomLifecycle.tla", "MCRandomLifecycle.cfg", workers=2, timeout=300)
+    if rl.violated:
+        R.violation("RandomLifecycle: a request is not served by the source installed last: " + rl.tail(20), rl.out, name="model")
+    if not R.tlc("sys/RandomLifecycle.tla", "MCRandomLifecycleBroken.cfg", workers=2, timeout=300).violated:
+        raise vlib.MachineryError("vacuity: a close that forgets the installed source is not rejected")
+    R.add("states", r.distinct + rl.distinct); R.add("transitions", r.generated + rl.generated)
     R.cov["model"] = {"module": "MCRandomSource", "word_bits": 6, "distinct": r.distinct, "generated": r.generated, "broken_variants_rejected": 1}
     variants = ["native", "portable"]
     R.build_all(variants)
